@@ -226,7 +226,7 @@ pub fn discovered_env_names(exe: &Path) -> Vec<String> {
     let mut names: Vec<String> = vec![];
     for sub in SUBS {
         let mut cmd = Command::new(exe);
-        cmd.args(sub.iter()).arg("--help").env_clear().stdin(Stdio::null()).stdout(Stdio::piped()).stderr(Stdio::piped());
+        cmd.args(sub.iter()).arg("--help").env_clear().current_dir(work_dir()).stdin(Stdio::null()).stdout(Stdio::piped()).stderr(Stdio::piped());
         let Ok(mut child) = cmd.spawn() else { continue };
         let start = Instant::now();
         loop {
@@ -272,6 +272,16 @@ pub fn discovered_env_names(exe: &Path) -> Vec<String> {
 /// A directory holding files a tool might pick up uninvited: dotenv and configuration files that name another
 /// wallet, another passphrase, another account. Used as working directory and HOME of some runs; on a tool
 /// that only acts on its arguments, its documented variables and its input they change nothing.
+pub fn work_dir() -> PathBuf {
+    static DIR: OnceLock<PathBuf> = OnceLock::new();
+    DIR.get_or_init(|| {
+        let d = scratch(&global_root()).join("cwd");
+        let _ = std::fs::create_dir_all(&d);
+        d
+    })
+    .clone()
+}
+
 pub fn decoy_dir() -> PathBuf {
     static DIR: OnceLock<PathBuf> = OnceLock::new();
     DIR.get_or_init(|| {
@@ -301,6 +311,9 @@ pub fn run(exe: &Path, inv: &Invocation, timeout: Duration) -> CliOut {
 pub fn run_raw(exe: &Path, args: &[OsString], env: &[(String, String)], stdin: &[u8], timeout: Duration) -> CliOut {
     let mut cmd = Command::new(exe);
     cmd.args(args).env_clear().env("RUST_BACKTRACE", "0").stdout(Stdio::piped()).stderr(Stdio::piped());
+    // Every run starts in a scratch directory of this process (cases pass absolute paths): whatever a changed
+    // tool writes relative to its working directory stays out of /verif and is removed with the scratch space.
+    cmd.current_dir(work_dir());
     // What standard input is (chosen by a hash of the invocation, so that a replay repeats it): mostly a pipe,
     // sometimes a socket (how sshd and inetd start commands), a regular file, or a regular file whose offset is
     // not 0 (a shell redirection partly consumed by an earlier command). The bytes to be read are the same.
@@ -611,6 +624,7 @@ pub fn run_tty_env(exe: &Path, args: &[&str], env: &[(String, String)], stdin_da
     }
     let mut cmd = Command::new(exe);
     cmd.args(args).env_clear().env("RUST_BACKTRACE", "0").env("TERM", "xterm").stderr(Stdio::piped());
+    cmd.current_dir(work_dir());
     for (k, v) in env {
         cmd.env(k, v);
     }
@@ -719,6 +733,7 @@ pub fn run_all_tty(exe: &Path, args: &[&str]) -> Option<CliOut> {
     let (err_m, err_s) = unsafe { open_pty() }?;
     let mut cmd = Command::new(exe);
     cmd.args(args).env_clear().env("RUST_BACKTRACE", "0").env("TERM", "xterm-256color").env("COLUMNS", "80").env("LINES", "24");
+    cmd.current_dir(work_dir());
     cmd.stdin(Stdio::from(in_s)).stdout(Stdio::from(out_s)).stderr(Stdio::from(err_s));
     let mut child = cmd.spawn().ok()?;
     drop(cmd);
